@@ -310,6 +310,7 @@ Qed.
 Theorem safe_origin_block_parser len : safe (origin_block_parser len).
 Proof.
   unfold origin_block_parser. destruct (Z.ltb_spec len 0); [apply safe_fail|].
+  destruct (Z.ltb_spec (T len) 0); [apply safe_fail|].
   intros s Hs. unfold bind at 1. unfold try at 1.
   pose proof (request_z_buffer (T len) (to_len_nonneg len H) s Hs) as R.
   destruct (request_z (T len) s) as [[u|k| |] s1]; try contradiction; [|exact R].
